@@ -12,6 +12,7 @@ case "$FLAV" in
   o0)    CC=gcc;   FL="-O0 -g" ;;
   o2)    CC=gcc;   FL="-O2 -g" ;;
   o3)    CC=gcc;   FL="-O3 -g" ;;
+  fine)  CC=gcc;   FL="-O1 -g"; REPOFL="-fsanitize=thread" ;;
   *) echo "unknown flavour $FLAV" >&2; exit 2 ;;
 esac
 COMMON="-std=gnu99 -I$REPO/include -I$SIM -DCELLO_VERIF -DCELLO_NSTRACE -fno-pie -Wall -Wno-unused -Wno-unknown-pragmas $FL $*"
@@ -22,7 +23,7 @@ fail=0
 # calls (made while it holds internal locks) would become scheduling points too
 for f in "$REPO"/src/*.c "$SIM"/*.c; do
   o="$OUT/$(basename "$f" .c).o"
-  X="-Dpthread_getspecific=__wrap_pthread_getspecific"
+  X="-Dpthread_getspecific=__wrap_pthread_getspecific $REPOFL"
   case "$f" in "$SIM"/*) o="$OUT/sim_$(basename "$f" .c).o"; X="" ;; esac
   $CC $COMMON $X -c "$f" -o "$o" 2> "$o.log" &
   pids="$pids $!"
